@@ -305,6 +305,20 @@ var c02Templates = []sim.Template{
 		return []*sim.Action{act("login", 0, v, "ok"), act(kv, 0, -9, "recovery"), act("logout", 0, -9, ""), act("advance", 0, -9, "", "d", "11s"),
 			act("login", 1, v, "ok"), act(kv, 1, -9, "recovery_spent"), act("advance", 1, -9, "", "d", "11s"), act("login", 2, v, "ok"), act(kv, 2, -9, "recovery_spent"), act(kv, 2, -9, "recovery")}
 	}},
+	{Name: "factor-removed-while-login-parked", F: func(s *sim.Sim) []*sim.Action {
+		// an account with both factors; a login is parked at the second step in one browser; the owner,
+		// fully logged in elsewhere, removes TOTP (SMS stays); the parked browser then answers the TOTP
+		// step with the code of the EMPTY secret, which anybody can compute
+		if !s.Cfg.Has2FA("totp") || !s.Cfg.Has2FA("sms") || !s.Cfg.Has("auth") {
+			return nil
+		}
+		v := findAcct(s, func(u *world.User) bool { return u.TOTPSecretKey != "" && u.SMSPhone != "" && u.Confirmed })
+		if v < 0 {
+			return nil
+		}
+		return []*sim.Action{act("login", 0, v, "ok"), act("login", 1, v, "ok"), act("totp_validate", 1, -9, "ok"), act("advance", 1, -9, "", "d", "31s"),
+			act("totp_remove", 1, -9, pickS(s.R, "ok", "recovery")), act("totp_validate", 0, -9, "emptysecret"), act("totp_validate", 0, -9, "ok"), act("visit", 0, -9, "", "route", "/protected/bare")}
+	}},
 	{Name: "cross-kind-pending", F: func(s *sim.Sim) []*sim.Action {
 		if len(s.Cfg.TwoFA) < 2 || !s.Cfg.Has("auth") {
 			return nil
